@@ -1,14 +1,17 @@
 // C18 — Handlers: On fires every time, Once at most once, Off removes just what it names.
 //
-// Part A: generated On/Once/Off/OffAll/Fire sequences run in lock-step against the two
-// real (unexported) registries and a set-valued reference model (model.go); after every
-// Fire the multiset of handlers that ran is compared with the model. A divergence is
-// attributed to one operation by replaying every prefix on a fresh registry and probing
-// all events, then shrunk to a short witness program.
-// Part B (partb.go): the same model driven through every public On/Once/Off family with
+// Part A (main.go): generated On/Once/Off/OffAll/Fire sequences run in lock-step against
+// the two real (unexported) registries and a set-valued reference model (model.go); after
+// every Fire the multiset of handlers that ran is compared with the model. A divergence is
+// attributed to one operation by replaying every prefix on a fresh registry and probing all
+// events, then shrunk (class-preserving) to a short witness program. Plus an exhaustive
+// pass over all short programs of a small alphabet.
+// Part B (partb.go): the same model driven through EVERY public On/Once/Off family with
 // real occurrences (real server, real Go clients, kill/restart of the server for the
-// Manager families).
-// Part C (partc.go): occurrences racing a Once handler, concurrent On/Off/Fire.
+// Manager families); directed programs and seeded random programs.
+// Part C (partc.go, partd.go): occurrences racing Once handlers on the registries and end
+// to end, concurrent On/Off/Fire without panics, linearizability of recorded histories
+// (porcupine).
 package main
 
 import (
@@ -575,9 +578,10 @@ func selfCheck(run *vk.Run) bool {
 func main() {
 	run := vk.Start("C18", "exploration")
 	run.Rule("A: seeded On/Once/Off(0..3 handlers, absent ones, the same one twice)/OffAll/Fire sequences of length 1..25 over 3 events x 8 handlers (distinct function literals), " +
-		"lock-step against a set-valued reference model on both real registries; distinct = registry + bucketed multiset of operation kinds + features (dup registration, multi-off of present handlers, off of absent, same handler twice, off of a dup). " +
-		"B: directed and seeded programs through every public On/Once/Off family with real occurrences; distinct = family/program. " +
-		"C: occurrences racing Once handlers on the registries and end to end; distinct = scenario/goroutines/registrations")
+		"lock-step against a set-valued reference model on both real registries; distinct = registry + bucketed multiset of operation kinds + features (dup registration, multi-off of present handlers, off of absent, same handler twice, off of a dup); " +
+		"plus EVERY program of length <= 4 (thorough: 5) over 20 operations x 3 handlers on both registries. " +
+		"B: 15 directed and seeded random programs (1..3 rounds of registry calls, each followed by real occurrences) through every public On/Once/Off family (17 lifecycle families, 3 event families, 4 OffAll methods); distinct = instance type/program. " +
+		"C: occurrences racing Once handlers on the registries and end to end, concurrent On/Once/Off/Fire, porcupine on recorded histories partitioned by event; distinct = scenario/goroutines/registrations")
 	run.Assume("handlers are distinct function literals (closures of one literal share a code pointer and are indistinguishable to OffEvent by design)",
 		"the order in which the handlers of one occurrence run is not checked",
 		"Off(h) with h registered k>1 times may remove all or one registration per time h is named (both accepted)",
